@@ -24,6 +24,7 @@ import (
 	"slices"
 	"sort"
 	"strings"
+	"sync"
 	"sync/atomic"
 	"testing"
 	"testing/synctest"
@@ -119,6 +120,9 @@ type Script struct {
 	// before it is handed to the lister, and waits there until the change notifications have been handled:
 	// the page in hand is then older than the last invalidation the client saw.
 	LateAt int `json:"late_at,omitempty"`
+	// RelistInHandler: that session's list-changed handlers list the kind they were told about right away,
+	// inside the handler (the natural reaction to the notification): what they get is the registered set.
+	RelistInHandler bool `json:"relist_in_handler,omitempty"`
 }
 
 var legacyVersions = []string{"2025-06-18", "2025-06-18", "2025-11-25", "2025-03-26", "2024-11-05"}
@@ -218,6 +222,7 @@ func gen(rt *rapid.T) Script {
 	}
 	if len(s.Late) > 0 {
 		s.LateAt = rapid.SampledFrom([]int{0, 0, 1, 1, 2, 3, 5}).Draw(rt, "late_at")
+		s.RelistInHandler = rapid.Bool().Draw(rt, "relist_in_handler")
 	}
 	if density := rapid.SampledFrom([]int{0, 3, 6, 9}).Draw(rt, "hide_density"); density > 0 {
 		for n := range alphabet {
@@ -774,12 +779,35 @@ func (e *env) lateChecks() {
 		e.res.Failf("harness: %v", err)
 		return
 	}
-	client := mcp.NewClient(&mcp.Implementation{Name: "cached", Version: "1"}, &mcp.ClientOptions{
-		ToolListChangedHandler:     func(context.Context, *mcp.ToolListChangedRequest) {},
-		PromptListChangedHandler:   func(context.Context, *mcp.PromptListChangedRequest) {},
-		ResourceListChangedHandler: func(context.Context, *mcp.ResourceListChangedRequest) {},
-	})
+	var cs *mcp.ClientSession
 	lateDone, listResponses, phase1 := false, 0, true
+	limit := 4*len(alphabet) + 10
+	var hmu sync.Mutex
+	var inHandler []string // complaints of listings made inside the handlers
+	relisted := 0
+	// relist is what a list-changed handler does when RelistInHandler is set. (Late operations are applied in
+	// one go and nothing else changes the feature sets afterwards: the registered set is the model's.)
+	relist := func(kinds ...int) {
+		if !e.s.RelistInHandler || !lateDone || cs == nil {
+			return
+		}
+		for _, k := range kinds {
+			got, err := iterate(cs, k, nil, limit)
+			hmu.Lock()
+			relisted++
+			if err != nil {
+				inHandler = append(inHandler, fmt.Sprintf("%s: listing inside the list-changed handler failed after yielding %q: %v", kindName[k], got, err))
+			} else if want := e.m.sorted(k); !slices.Equal(sortedCopy(got), want) {
+				inHandler = append(inHandler, fmt.Sprintf("%s (page size %d): listing inside the list-changed handler yielded %q, registered are %q", kindName[k], e.s.PageSize, got, want))
+			}
+			hmu.Unlock()
+		}
+	}
+	client := mcp.NewClient(&mcp.Implementation{Name: "cached", Version: "1"}, &mcp.ClientOptions{
+		ToolListChangedHandler:     func(context.Context, *mcp.ToolListChangedRequest) { relist(kTool) },
+		PromptListChangedHandler:   func(context.Context, *mcp.PromptListChangedRequest) { relist(kPrompt) },
+		ResourceListChangedHandler: func(context.Context, *mcp.ResourceListChangedRequest) { relist(kRes, kTmpl) },
+	})
 	applyLate := func() {
 		lateDone = true
 		for _, op := range e.s.Late {
@@ -800,7 +828,7 @@ func (e *env) lateChecks() {
 			return out, err
 		}
 	})
-	cs, err := client.Connect(ctx, ct, nil)
+	cs, err = client.Connect(ctx, ct, nil)
 	if err != nil {
 		ss.Close()
 		e.res.Failf("harness: connect of the caching session: %v", err)
@@ -812,7 +840,6 @@ func (e *env) lateChecks() {
 	}()
 	e.ttlOn.Store(true)
 	defer e.ttlOn.Store(false)
-	limit := 4*len(alphabet) + 10
 	version := cs.InitializeResult().ProtocolVersion
 	listAll := func(phase string) bool {
 		for k := 0; k < nKinds; k++ {
@@ -853,6 +880,17 @@ func (e *env) lateChecks() {
 	synctest.Wait()
 	time.Sleep(30 * time.Second) // list-changed notifications are debounced by a period the SDK chooses; still well inside the 60 s TTL
 	synctest.Wait()
+	hmu.Lock()
+	for _, c := range inHandler {
+		e.res.Failf("%s", c)
+	}
+	if relisted > 0 {
+		e.res.Class("listed_inside_a_list_changed_handler")
+	}
+	hmu.Unlock()
+	if len(e.res.Violations) > 0 {
+		return
+	}
 	if listAll("listing again after list-changed notifications, within the TTL") {
 		e.res.Class("relisted_after_change_within_ttl")
 		if e.s.PageSize < 4 {
